@@ -7,7 +7,23 @@ let encode_extra (a : string list) : barcode outcome =
   | ["az"; pct; layers; h] -> az_encode (zlist_of_hex h) (z_of_string pct) (z_of_string layers)
   | _ -> failwith ("no model for " ^ String.concat " " a)
 
+(* PDF417: the column count is the implementation's choice; the model answers with the result for
+   EVERY legal column count (2..30), the check accepts whichever the implementation produced *)
+let acc_of (bc : barcode) =
+  let d = show_barcode bc in
+  String.sub d 0 (String.rindex d ' ')
+
+let acc_pdf level h : string =
+  let data = zlist_of_hex h and lv = z_of_string level in
+  let res = List.filter_map (fun c ->
+      match pdf_encode data lv (z_of_int c) with
+      | Ok bc -> Some (acc_of bc) | _ -> None) (List.init 29 (fun i -> i + 2)) in
+  match res with
+  | [] -> (match pdf_encode data lv (z_of_int 2) with Panic -> "PANIC" | OutOfFuel -> "OUTOFFUEL" | _ -> "ERR")
+  | _ -> String.concat " || " (List.sort_uniq compare res)
+
 let repr_extra (a : string list) : bool =
   match a with
   | ["az"; pct; layers; h] -> az_representable_b (zlist_of_hex h) (z_of_string pct) (z_of_string layers)
+  | ["pdf"; level; h] -> pdf_representable_b (zlist_of_hex h) (z_of_string level)
   | _ -> failwith ("no spec for " ^ String.concat " " a)
